@@ -1,7 +1,8 @@
 (* C13 — extra dimensions across add / remove histories.  Definitions only (proofs in Proofs/ExtraDimsProofs.v).
 
    What is modelled (hand-written, after the code named on each definition):
-     LasData.add_extra_dims / remove_extra_dims (lasdata.py), LasHeader.add_extra_dims / remove_extra_dims /
+     LasData.add_extra_dims / remove_extra_dims and the LasData.points setter with PointFormat.__eq__ /
+     DimensionInfo.__eq__ (lasdata.py, point/format.py, point/dims.py), LasHeader.add_extra_dims / remove_extra_dims /
      _sync_extra_bytes_vlr and the extra-dimension part of LasHeader.read_from (header.py),
      PointFormat.add_extra_dimension / remove_extra_dimension (point/format.py),
      PackedPointRecord.zeros + copy_fields_from (point/record.py: a new zeroed record, fields copied by name),
@@ -208,6 +209,7 @@ Inductive op :=
 | Remove (names : list (list Z))                   (* las.remove_extra_dims(names) *)
 | Assign (name : list Z) (vals : list (list Z))    (* raw values of one extra dimension, one per record *)
 | AssignStd (vals : list (list Z))                 (* raw bytes of the standard dimensions, one block per record *)
+| SetPoints (ex : list edim) (recs : list (list Z)) (* las.points = <a record whose own PointFormat has the extra dimensions ex> *)
 | RoundTrip.                                       (* las = laspy.read(las.write(...)) *)
 
 Definition find_dim (n : list Z) (ex : list edim) : option edim := find (fun d => name_eqb (ed_name d) n) ex.
@@ -252,6 +254,61 @@ Definition do_assign_std (s : state) (vals : list (list Z)) : state * result uni
       then (mkSt (st_fmt s) (st_extras s) (map (fun p => (fst p, snd (snd p))) (combine vals (st_recs s)))
                  (st_vlrs s), Ok tt)
       else (s, Err EValue)
+  end.
+
+(* ---- whole-record assignment: the LasData.points setter ---------------------------------
+   The assigned record carries its own PointFormat object (a copy of the record, the record of another LasData or
+   of a re-read file): `ex` are its extra dimensions, `recs` the bytes of its points (any number of points).
+   The setter compares the two formats with PointFormat.__eq__ / DimensionInfo.__eq__ (name, kind, number of bits,
+   description, scales and offsets compared as numbers: -0.0 = 0.0, NaN <> NaN; the element count is NOT compared),
+   refuses with IncompatibleDataFormat (a LaspyException) when they differ, and otherwise takes the record and
+   re-points its format at the header's PointFormat — so the state keeps st_extras and the following add / remove
+   see one format.  (That re-pointing is an aliasing fact of the implementation; here it is the equation
+   "extra dimensions of the record = extra dimensions of the header" that the state has by construction, and the
+   correspondence check compares both formats of the implementation with st_extras after every step.) *)
+Definition et_kind (t : etype) : string :=
+  match t with
+  | TOpaque _ => "u"
+  | TStd id => match type_row id with Some (_, k, _, _) => k | None => "" end
+  end.
+Definition f64_is_nan (z : Z) : bool := (Z.land (Z.shiftr z 52) 2047 =? 2047) && negb (Z.land z (2 ^ 52 - 1) =? 0).
+Definition f64_is_zero (z : Z) : bool := Z.land z (2 ^ 63 - 1) =? 0.
+Definition f64_eqv (a b : Z) : bool :=
+  negb (f64_is_nan a) && negb (f64_is_nan b) && ((a =? b) || (f64_is_zero a && f64_is_zero b)).
+Fixpoint f64s_eqv (a b : list Z) : bool :=
+  match a, b with
+  | [], [] => true
+  | x :: a', y :: b' => f64_eqv x y && f64s_eqv a' b'
+  | _, _ => false
+  end.
+Definition scale_eqv (a b : option (list Z * list Z)) : bool :=
+  match a, b with
+  | None, None => true
+  | Some (s, o), Some (s', o') => f64s_eqv s s' && f64s_eqv o o'
+  | _, _ => false
+  end.
+Definition edim_eqv (a b : edim) : bool :=
+  name_eqb (ed_name a) (ed_name b) && String.eqb (et_kind (ed_type a)) (et_kind (ed_type b))
+  && (et_size (ed_type a) =? et_size (ed_type b)) && name_eqb (ed_desc a) (ed_desc b)
+  && scale_eqv (ed_scale a) (ed_scale b).
+Fixpoint fmt_eqv (a b : list edim) : bool :=
+  match a, b with
+  | [], [] => true
+  | x :: a', y :: b' => edim_eqv x y && fmt_eqv a' b'
+  | _, _ => false
+  end.
+
+(* a record of format (st_fmt s, ex): every point is standard + extra bytes long *)
+Definition recs_okb (std : Z) (ex : list edim) (recs : list (list Z)) : bool :=
+  forallb (fun b => (len b =? std + extras_size ex) && bytes_ok b) recs.
+
+Definition do_set_points (s : state) (ex : list edim) (recs : list (list Z)) : state * result unit :=
+  match std_size (st_fmt s) with
+  | None => (s, Err EValue)
+  | Some std =>
+      if negb (recs_okb std ex recs) then (s, Err EValue)      (* not a record of that format: not compared *)
+      else if negb (fmt_eqv ex (st_extras s)) then (s, Err ELaspy)
+      else (mkSt (st_fmt s) (st_extras s) (map (split_rec std (st_extras s)) recs) (st_vlrs s), Ok tt)
   end.
 
 (* what a LAS file carries of the state (that header fields, VLR payloads and point bytes survive verbatim is
@@ -305,6 +362,7 @@ Definition step (s : state) (o : op) : state * result unit :=
   | Remove names => do_remove s names
   | Assign n vals => do_assign s n vals
   | AssignStd vals => do_assign_std s vals
+  | SetPoints ex recs => do_set_points s ex recs
   | RoundTrip => do_roundtrip s
   end.
 
@@ -351,9 +409,10 @@ Definition op_names (o : op) : list (list Z) :=
   | Remove names => names
   | Assign n _ => [n]
   | AssignStd _ => []
+  | SetPoints ex _ => extra_names ex          (* every dimension of the record *)
   | RoundTrip => []
   end.
-Definition op_touches_std (o : op) : bool := match o with AssignStd _ => true | _ => false end.
+Definition op_touches_std (o : op) : bool := match o with AssignStd _ | SetPoints _ _ => true | _ => false end.
 
 Definition field_of (n : list Z) (r : xrec) : option (list Z) := lookup n (snd r).
 
